@@ -14,7 +14,7 @@ use std::time::{Duration, Instant};
 thread_local! { static CUR_TASK: Cell<usize> = const { Cell::new(usize::MAX) }; }
 
 #[derive(Clone, Copy, Debug, PartialEq, Eq)]
-pub enum Strategy { Random, RunToCompletion, Priorities, PreemptionBounded, Reverse, RoundRobin, Replay, ConflictFirst(usize), ConflictLast(usize) }
+pub enum Strategy { Random, RunToCompletion, Priorities, PreemptionBounded, Reverse, RoundRobin, Replay, ConflictFirst(usize), ConflictLast(usize), WriteThenRead { key: u64, writer: usize, reader: usize } }
 
 #[derive(Clone, Debug)]
 pub struct TraceEv { pub task: u32, pub write: bool, pub key: u64, pub value: Option<i16> }
@@ -52,6 +52,15 @@ pub struct St {
     abort: bool,
     last_activity: Instant,
     keep_trace: bool,
+    /// phase of a WriteThenRead schedule: 0 = run the writer, 1 = run the reader, 2 = free
+    wtr_phase: u8,
+    pub wtr_completed: bool,
+    /// distinct tasks that looked a key up (at most three kept per key)
+    readers: HashMap<u64, Vec<usize>>,
+    /// keys one task stored two different values under, with another task that looks the key up:
+    /// (key, writer, reader). Empty for a cache whose entries are final when stored.
+    pub rewrite_conflicts: Vec<(u64, usize, usize)>,
+    rewritten: HashMap<u64, usize>,
 }
 
 pub struct Scheduler { st: Mutex<St>, cvs: Vec<Condvar>, settle_ms: u64 }
@@ -70,7 +79,7 @@ impl Scheduler {
                 unsettled: true, settle_deadline: None, strategy, rng, prio: HashMap::new(), change_points, preempt_points,
                 last: None, replay, replay_mismatch: false, decisions: vec![], trace: vec![], trace_hash: 0xcbf2_9ce4_8422_2325,
                 late_arrivals: 0, cross_task_hits: 0, prewarmed_hits: 0, own_hits: 0, misses: 0, writes: 0, rewrites_different: 0,
-                writer: HashMap::new(), conflicts: vec![], abort: false, last_activity: Instant::now(), keep_trace,
+                writer: HashMap::new(), conflicts: vec![], abort: false, last_activity: Instant::now(), keep_trace, wtr_phase: 0, wtr_completed: false, readers: HashMap::new(), rewrite_conflicts: vec![], rewritten: HashMap::new(),
             }),
             cvs: (0..MAX_TASKS).map(|_| Condvar::new()).collect(),
             settle_ms: 30,
@@ -116,6 +125,14 @@ impl Scheduler {
             Strategy::ConflictLast(t) => {
                 let others: Vec<usize> = parked.iter().copied().filter(|x| *x != t).collect();
                 if others.is_empty() { t } else { match st.last { Some(l) if l != t && st.parked.contains_key(&l) => l, _ => others[0] } }
+            }
+            Strategy::WriteThenRead { writer, reader, .. } => {
+                let fallback = match st.last { Some(l) if st.parked.contains_key(&l) => l, _ => parked[0] };
+                match st.wtr_phase {
+                    0 => if st.parked.contains_key(&writer) { writer } else { st.wtr_phase = 2; fallback },
+                    1 => if st.parked.contains_key(&reader) { reader } else { st.wtr_phase = 2; fallback },
+                    _ => fallback,
+                }
             }
             Strategy::Replay => {
                 let want = st.replay.get(n).copied().map(|x| x as usize);
@@ -189,12 +206,24 @@ impl Scheduler {
         let mut h = st.trace_hash;
         for w in [task as u64, write as u64, key, value.map(|v| v as u16 as u64 + 1).unwrap_or(0)] { h ^= w; h = h.wrapping_mul(0x0000_0100_0000_01B3); h ^= h >> 31; }
         st.trace_hash = h;
+        if let Strategy::WriteThenRead { key: k, writer, reader } = st.strategy {
+            if key == k {
+                if write && task == writer && st.wtr_phase == 0 { st.wtr_phase = 1; }
+                else if !write && task == reader && st.wtr_phase == 1 { st.wtr_phase = 2; st.wtr_completed = true; }
+            }
+        }
         if write {
             st.writes += 1;
             let v = value.unwrap();
-            if let Some((_, old)) = st.writer.get(&key) { if *old != v { st.rewrites_different += 1; } }
+            if let Some((_, old)) = st.writer.get(&key) { if *old != v {
+                st.rewrites_different += 1;
+                if st.rewritten.len() < 100_000 { st.rewritten.insert(key, task); }
+                if st.rewrite_conflicts.len() < 64 { if let Some(rd) = st.readers.get(&key).and_then(|r| r.iter().copied().find(|t| *t != task)) { st.rewrite_conflicts.push((key, task, rd)); } }
+            } }
             st.writer.insert(key, (task, v));
         } else {
+            { let r = st.readers.entry(key).or_default(); if r.len() < 3 && !r.contains(&task) { r.push(task); } }
+            if let Some(&w) = st.rewritten.get(&key) { if w != task && st.rewrite_conflicts.len() < 64 { st.rewrite_conflicts.push((key, w, task)); } }
             match value {
                 None => st.misses += 1,
                 Some(_) => match st.writer.get(&key).copied() {
